@@ -4,6 +4,7 @@ CONSTANTS
   MaxP = 1
   MaxB = 2
   Ty = "SE3"
+  NumBig = TRUE
   Mut = "none"
 INVARIANT ColumnPartition
 INVARIANT SplitIsPartition
